@@ -96,6 +96,7 @@ MUTANTS = {
         ("patch:own-c01-insertion-phase-anchor",),
         ("patch:own-c01-mnp-phase-record",),
         ("patch:own-c01-read-ends-inside-mnp",),
+        ("patch:own-c01-read-ends-on-insertion-anchor",),
         ("patch:own-c06-silent-mnp-not-merged",),
         ("minus-strand-insertion-anchor", "aldy/gene.py", '                        op = f"ins{rev_comp(op[3:])}"\n                        pos += 1', '                        op = f"ins{rev_comp(op[3:])}"'),
         ("deletion-anchor-in-realignment", "aldy/sam.py", "                    p -= 1\n                    o = self.gene[p]", "                    o = self.gene[p]"),
